@@ -1,6 +1,11 @@
 import EaselModel.Weights.Lemmas
 import EaselModel.Weights.Linkage
 import EaselModel.Weights.PB
+import EaselModel.Weights.Sort
+import EaselModel.Weights.Blosum
+import EaselModel.Weights.PBCounts
+import EaselModel.Weights.PBPerm
+import EaselModel.Weights.GSC
 /-! # C16 — sequence weights, identity filtering and clustering follow their definitions
 
   Theorems about the `ℚ` instance of the executable model `EaselModel.Weights` (the `Float` instance of the same
@@ -146,5 +151,100 @@ theorem pbDigital_is (abc : Abc) (rule : Nat → Nat → Bool) (minspan : Int) (
         (pbConsensus abc rule rf (rows.map (rowInfo abc minspan)) (alenOf rows)).cols) rows := rfl
 
 example : pbText (α := ℚ) [[65, 65], [65, 67], [45, 67]] = [4/3, 1, 2/3] := by decide +kernel
+
+/-! ## M2: sizes, BLOSUM, digital filter with any preference order, true counts, relisting, GSC -/
+
+/-- cluster sizes as counted from the assignment array (`nin[]`, `nmem[]`) are the sizes of the clusters, and add up to n -/
+theorem singleLinkage_sizes (link : Nat → Nat → Bool) (hsym : ∀ x y, link x y = link y x) (n : Nat) :
+    (∀ k (hk : k < (singleLinkage link n).length),
+      (clusterSizes (assignment (singleLinkage link n) n) (singleLinkage link n).length).getD k 0 = (singleLinkage link n)[k].length) ∧
+    ((singleLinkage link n).map List.length).sum = n :=
+  ⟨fun _ hk => (singleLinkage_isPartition hsym n).clusterSizes_getElem hk, (singleLinkage_isPartition hsym n).sizes_sum⟩
+
+/-- esl_msaweight_IDFilter_adv for ANY preference vector (conscover / random / original order / anything else) and
+    whatever esl_quicksort does with it: the kept rows are pairwise below the threshold and no dropped row could be added -/
+theorem idFilterDigital_spec (abc : Abc) (maxid : ℚ) (sortwgt : List ℚ) (rows : List Row) :
+    let kept := idFilterDigital abc maxid sortwgt rows
+    (∀ x ∈ kept, x < rows.length) ∧
+    kept.Pairwise (fun k r => pid (α := ℚ) (Mode.digital abc) (rows.getD r []) (rows.getD k []) < maxid) ∧
+    (∀ r, r < rows.length → r ∉ kept →
+      ∃ k ∈ kept, maxid ≤ pid (α := ℚ) (Mode.digital abc) (rows.getD r []) (rows.getD k [])) := by
+  have h := idFilter_independent_maximal
+    (fun r k => linked (Mode.digital abc) maxid (rows.getD r []) (rows.getD k []))
+    (quicksort (cmpDecreasing sortwgt) rows.length) (quicksort_nodup _ _)
+  refine ⟨fun x hx => (mem_quicksort _ _ _).mp (h.1 x hx), ?_, ?_⟩
+  · refine List.Pairwise.imp ?_ h.2.1
+    intro k r hl
+    simpa [linked] using hl
+  · intro r hr hnot
+    obtain ⟨k, hk, hl⟩ := h.2.2 r ((mem_quicksort _ _ _).mpr hr) hnot
+    exact ⟨k, hk, by simpa [linked] using hl⟩
+
+/-- esl_quicksort returns a permutation of 0..n-1 for any comparison function -/
+theorem quicksort_permutation (cmp : Nat → Nat → Int) (n : Nat) : (quicksort cmp n).Perm (List.range n) :=
+  quicksort_perm cmp n
+
+/-- BLOSUM: `w_i = (N / #clusters) / |cluster(i)|` -/
+theorem blosum_formula (m : Mode) (maxid : ℚ) (rows : List Row) (hn : rows.length ≠ 1) (i : Nat) (hi : i < rows.length)
+    (hi' : i < (blosum m maxid rows).length) :
+    (blosum m maxid rows)[i] =
+      (rows.length : ℚ) / (msaSingleLinkage m maxid rows).length /
+        ((msaSingleLinkage m maxid rows).getD (clusterIndex (msaSingleLinkage m maxid rows) i) []).length :=
+  blosum_getElem m maxid rows hn i hi hi'
+
+theorem blosum_sum_nonneg (m : Mode) (maxid : ℚ) (rows : List Row) (hne : rows ≠ []) :
+    (blosum m maxid rows).sum = rows.length ∧ ∀ w ∈ blosum m maxid rows, 0 ≤ w :=
+  ⟨blosum_sum m maxid rows hne, blosum_nonneg m maxid rows⟩
+
+/-- digital PB: the count table entry used for a canonical residue is the number of rows with that residue in the column
+    and `r` is the number of different canonical residues there — the fragment rule does not touch them -/
+theorem pb_counts_digital (abc : Abc) (minspan : Int) (rows : List Row) (apos : Nat) (hK : abc.K ≤ abc.Kp)
+    (hrect : ∀ row ∈ rows, apos < row.length) :
+    (∀ a, a < abc.K →
+      (mkStat (PBParams.digital abc) apos (digCol (rows.map (rowInfo abc minspan)) apos)).ct.getD a 0 =
+        rows.countP (fun row => (row.getD apos 0).toNat == a)) ∧
+    (mkStat (PBParams.digital abc) apos (digCol (rows.map (rowInfo abc minspan)) apos)).r =
+      (List.range abc.K).countP (fun a => rows.countP (fun row => (row.getD apos 0).toNat == a) > 0) :=
+  ⟨fun a ha => digital_ct_true abc minspan rows apos a hK ha hrect, digital_r_true abc minspan rows apos hK hrect⟩
+
+/-- text PB: same for the 26 letters, case-insensitively -/
+theorem pb_counts_text (rows : List Row) (apos : Nat) :
+    (∀ a, a < 26 →
+      (mkStat PBParams.text apos (rows.map fun row => PBParams.text.sym (row.getD apos 0))).ct.getD a 0 =
+        rows.countP (fun row => PBParams.text.sym (row.getD apos 0) == some a)) ∧
+    (mkStat PBParams.text apos (rows.map fun row => PBParams.text.sym (row.getD apos 0))).r =
+      (List.range 26).countP (fun a => rows.countP (fun row => PBParams.text.sym (row.getD apos 0) == some a) > 0) :=
+  ⟨fun a ha => text_ct_true rows apos a ha, text_r_true rows apos⟩
+
+/-- relisting the rows of a (rectangular) alignment permutes the PB weights accordingly: one weight function of the
+    row serves both orders. Any consensus rule, fragment threshold and RF line. -/
+theorem pb_relisting_digital (abc : Abc) (rule : Nat → Nat → Bool) (minspan : Int) (rf : Option Row) {rows rows' : List Row}
+    (hp : rows.Perm rows') (hne : rows ≠ []) (L : Nat) (hrect : ∀ row ∈ rows, row.length = L) :
+    ∃ f : Row → ℚ, pbDigital (α := ℚ) abc rule minspan rf rows = rows.map f ∧
+                   pbDigital (α := ℚ) abc rule minspan rf rows' = rows'.map f :=
+  pbDigital_perm abc rule minspan rf hp hne L hrect
+
+theorem pb_relisting_text {rows rows' : List Row} (hp : rows.Perm rows') (hne : rows ≠ []) (L : Nat)
+    (hrect : ∀ row ∈ rows, row.length = L) :
+    ∃ f : Row → ℚ, pbText (α := ℚ) rows = rows.map f ∧ pbText (α := ℚ) rows' = rows'.map f :=
+  pbText_perm hp hne L hrect
+
+example : ([[65, 65], [65, 67]] : List Row).Perm [[65, 67], [65, 65]] ∧
+    ∀ row ∈ ([[65, 65], [65, 67]] : List Row), row.length = 2 := by
+  refine ⟨List.Perm.swap _ _ _, ?_⟩
+  intro row h; simp at h; rcases h with rfl | rfl <;> rfl
+
+/-- GSC weights (distance matrix, UPGMA, clade sizes, both traversals, normalisation) are ≥ 0 and sum to N -/
+theorem gsc_sum_nonneg (m : Mode) (rows : List Row) (hne : rows ≠ []) :
+    (gsc (α := ℚ) m rows).sum = rows.length ∧ ∀ w ∈ gsc (α := ℚ) m rows, 0 ≤ w :=
+  ⟨gsc_sum' m rows hne, gsc_nonneg' m rows⟩
+
+/-- KNOWN FINDING `C16:gsc:identical-rows-split-by-zero-distance-ties`: "identical sequences get identical GSC weights"
+    is FALSE for the code as written. Witness (rows 1 and 4 are both `ACDEFGHI`):
+    `--DE----`, `ACDEFGHI`, `---EF---`, `---EFGH-`, `ACDEFGHI`  ↦  5/4, 5/4, 5/6, 5/6, 5/6 -/
+theorem gsc_identical_rows_fails_at :
+    gsc (α := ℚ) Mode.text
+      [[45,45,68,69,45,45,45,45], [65,67,68,69,70,71,72,73], [45,45,45,69,70,45,45,45], [45,45,45,69,70,71,72,45],
+       [65,67,68,69,70,71,72,73]] = [5/4, 5/4, 5/6, 5/6, 5/6] := by decide +kernel
 
 end EaselModel.Props.C16
